@@ -23,6 +23,8 @@ type Clause struct {
 type LoopSpec struct {
 	N         int
 	Invs      []Clause
+	Steps     []Clause // two-state: x is the value at the start of an iteration, next_x the value for the next
+	Exits     []Clause // hold at every return reached from inside the loop body (loop variables = start of iteration)
 	Decreases *Clause
 }
 
@@ -34,6 +36,7 @@ type SiteGhost struct { // ghost statement anchored at a call site
 	Target Expr   // for set: location
 	Value  Expr
 	Src    string
+	Label  string
 }
 
 type FuncSpec struct {
@@ -86,6 +89,14 @@ type GuardDecl struct { // shared T.f guarded_by <lockexpr over x> / atomic / im
 	Src         string
 }
 
+type PoolInv struct {
+	Owner, Field string // Owner "" for package-level pools (Field = global name)
+	Pkg          string
+	Item, IType  string
+	E            Expr
+	Src          string
+}
+
 type AxiomDecl struct {
 	Name string
 	E    Expr
@@ -100,6 +111,7 @@ type SpecSet struct {
 	GVars   []GhostVar
 	Guards  []GuardDecl
 	Axioms  []AxiomDecl
+	Pools   []PoolInv
 	Consts  map[string]string // const-global name -> mode
 	Errors  []string
 }
@@ -236,7 +248,7 @@ func (ss *SpecSet) LoadSpecFile(path, pkgPath string, assumed bool) error {
 				fail(i, "duplicate contract for %s", key)
 			}
 			ss.Funcs[key] = cur
-		case "requires", "ensures", "invariant", "decreases", "onpanic":
+		case "requires", "ensures", "invariant", "decreases", "onpanic", "step", "exit":
 			if cur == nil {
 				fail(i, "%s outside func", kw)
 				continue
@@ -258,6 +270,16 @@ func (ss *SpecSet) LoadSpecFile(path, pkgPath string, assumed bool) error {
 					continue
 				}
 				curLoop.Invs = append(curLoop.Invs, c)
+			case "step", "exit":
+				if curLoop == nil {
+					fail(i, "%s outside loop", kw)
+					continue
+				}
+				if kw == "step" {
+					curLoop.Steps = append(curLoop.Steps, c)
+				} else {
+					curLoop.Exits = append(curLoop.Exits, c)
+				}
 			case "decreases":
 				if curLoop == nil {
 					fail(i, "decreases outside loop")
@@ -374,7 +396,10 @@ func (ss *SpecSet) LoadSpecFile(path, pkgPath string, assumed bool) error {
 				} else if strings.HasPrefix(stmt, "assert ") {
 					g.Kind = "assert"
 					var err error
-					if g.Value, err = ParseExpr(stmt[7:]); err != nil {
+					lab, src := splitLabel(stmt[7:])
+					g.Label = lab
+					g.Src = src
+					if g.Value, err = ParseExpr(src); err != nil {
 						fail(i, "%v", err)
 						continue
 					}
@@ -471,6 +496,24 @@ func (ss *SpecSet) LoadSpecFile(path, pkgPath string, assumed bool) error {
 				g.Mode = "guarded"
 			}
 			ss.Guards = append(ss.Guards, g)
+		case "poolinv":
+			// poolinv Owner.field item *T :: expr   |   poolinv globalPool item *T :: expr
+			head, body, ok := strings.Cut(rest, "::")
+			hp := strings.Fields(head)
+			if !ok || len(hp) != 3 {
+				fail(i, "bad poolinv")
+				continue
+			}
+			e, err := ParseExpr(strings.TrimSpace(body))
+			if err != nil {
+				fail(i, "%v", err)
+				continue
+			}
+			pi := PoolInv{Field: hp[0], Item: hp[1], IType: hp[2], E: e, Src: strings.TrimSpace(body), Pkg: pkgPath}
+			if o, f, ok := strings.Cut(hp[0], "."); ok {
+				pi.Owner, pi.Field = o, f
+			}
+			ss.Pools = append(ss.Pools, pi)
 		case "const-global":
 			for _, n := range strings.Fields(rest) {
 				ss.Consts[qual(n)] = "const"
